@@ -6,6 +6,7 @@ CONSTANTS
   SaltIds <- S_All
   SaltWith <- W_Water
   KShifts <- KS_Q
+  SaltKShifts = {0, 4, 7}
   InitSeq <- I_Few
   InitPatterns <- IP_Few
   SolidInits <- SI_Few
